@@ -265,7 +265,8 @@ def generated_case(ctx, rng, idx):
         # and / or after the sensitivities are switched on (a parameter may
         # be fixed in between and released again)
         how = ['fix_then_enable', 'enable_then_fix', 'enable_fix_fix',
-               'fix_enable_fix', 'enable_fix_swap'][int(rng.integers(5))]
+               'fix_enable_fix', 'enable_fix_swap', 'fix_then_enable',
+               'fix_then_enable'][int(rng.integers(7))]
         feats['fix_history'] = how
         ka = int(rng.integers(0, k + 1)) if how in (
             'enable_fix_fix', 'fix_enable_fix') else k
@@ -290,9 +291,20 @@ def generated_case(ctx, rng, idx):
         if obj.parameters() != [p for p, f in zip(pub, free) if f]:
             ctx.violation('published_parameter_order', 'reduced_order',
                           {'chi': obj.parameters()}, feats)
+    subset = None
     try:
         if not obj.has_sensitivities():
-            obj.enable_sensitivities(True)
+            if rng.random() < (0.7 if reduced else 0.4) and \
+                    int(np.sum(free)) >= 2:
+                # sensitivities for a selection of the (free) parameters,
+                # named in any order: columns in published order
+                cand = list(obj.parameters())   # the free ones
+                k_s = int(rng.integers(1, len(cand)))
+                subset = [cand[i] for i in rng.permutation(len(cand))[:k_s]]
+                feats['sensitivity_selection'] = True
+                obj.enable_sensitivities(True, subset)
+            else:
+                obj.enable_sensitivities(True)
         y2, s = obj.simulate(x[free], times)
     except Exception as e:      # noqa
         ctx.violation_exc('simulate_raises', e,
@@ -300,6 +312,12 @@ def generated_case(ctx, rng, idx):
                            'fixed': (~free).tolist()}, feats)
         return
     free_names = [n for n, f in zip(names, free) if f]
+    if subset is not None:
+        # (published names may differ from the abstract model's names only
+        # by position: map through the published list)
+        pub_free = [n for n, f in zip(pub, free) if f]
+        free_names = [fn for fn, pn in zip(free_names, pub_free)
+                      if pn in subset]
     sref, tol = am.sensitivities(vals, times, outs, free_names)
     ctx.count('sensitivity_arrays_compared')
     s = np.asarray(s)
